@@ -29,7 +29,7 @@ func (c01) Meta() fw.Meta {
 			"raw slot state is read through the live handle (GetAllRawUnsortedPoints) and cross-checked against the harness' own parse of the file bytes at every sync/reopen",
 			"layouts: 1-4 archives, steps 1..3600*60, rings of 1..1500 slots (thorough: a few files > 4 MiB)",
 		},
-		Obligations: []string{"stale_lap_nan_reads", "ring_end_crossing_reads", "page_straddle_slot_reads", "whole_ring_reads", "ring1", "ring2", "negative_distance_reads", "reopen_then_read", "jump_longer_than_retention", "nan_payload_roundtrip", "distance_beyond_31_bits_reads", "file_over_1024_pages", "newer_lap_nan_reads"},
+		Obligations: []string{"stale_lap_nan_reads", "ring_end_crossing_reads", "page_straddle_slot_reads", "whole_ring_reads", "ring1", "ring2", "negative_distance_reads", "reopen_then_read", "jump_longer_than_retention", "nan_payload_roundtrip", "distance_beyond_31_bits_reads", "file_over_1024_pages", "newer_lap_nan_reads", "clock_stepped_back"},
 	}
 }
 
@@ -159,6 +159,9 @@ func (c01) Run(c *fw.Ctx) {
 				if op.Delta > a.Ret() {
 					c.Count("jump_longer_than_retention", 1)
 				}
+			}
+			if op.Delta < 0 {
+				c.Count("clock_stepped_back", 1)
 			}
 			s.now += op.Delta
 		case "sync", "reopen":
